@@ -40,6 +40,15 @@ def _ev(e, env, hook):
         if any(v is UNK for v in vals):
             return UNK
         return tuple(vals) if isinstance(e, ast.Tuple) else list(vals)
+    if isinstance(e, ast.Dict) and all(k is not None for k in e.keys):
+        ks = [ev(k, env, hook) for k in e.keys]
+        vs = [ev(v, env, hook) for v in e.values]
+        if any(x is UNK for x in ks + vs):
+            return UNK
+        try:
+            return dict(zip(ks, vs))
+        except TypeError:
+            return UNK
     if isinstance(e, ast.BinOp):
         a, b = ev(e.left, env, hook), ev(e.right, env, hook)
         if a is UNK or b is UNK:
